@@ -6,6 +6,7 @@ package standard
 
 import (
 	"context"
+	"fmt"
 	"math/rand"
 	"os"
 	"strconv"
@@ -64,6 +65,9 @@ type c12Run struct {
 	inflight atomic.Int32
 	returned atomic.Int32
 	probed   int32
+	// steering only
+	resolves map[int]bool // operations whose schedule works out the settings after the lock was released
+	retSeen  map[int]bool // operations whose Return step of the schedule has been passed
 }
 
 func (r *c12Run) emit(ev verifsupport.Ev) {
@@ -76,6 +80,18 @@ func (r *c12Run) runOp(op *c11Op) {
 	ctx := context.WithValue(r.ctx, c11OpKey{}, op)
 	s := r.sys.svc
 	ev := verifsupport.Ev{"sc": r.sc, "ev": "Return", "op": op.id, "kind": op.kind}
+	defer func() {
+		// a panic of the code under test is an event no action of the specification explains
+		if p := recover(); p != nil {
+			r.tr.Locked(func() verifsupport.Ev {
+				op.finished.Store(true)
+				r.inflight.Add(-1)
+				r.returned.Add(1)
+				return verifsupport.Ev{"sc": r.sc, "ev": "Crash", "op": op.id, "kind": op.kind, "panic": fmt.Sprint(p)}
+			})
+			close(op.done)
+		}
+	}()
 	switch op.kind {
 	case "fetch":
 		r.sys.sched.Get(c11FetchJob).Func(ctx)
@@ -144,6 +160,48 @@ func (r *c12Run) waitWriterPendingOrDone(op *c11Op) {
 	}
 }
 
+// heldAtName: an unfinished operation is being held mid-resolution by the driver.
+func (r *c12Run) heldAtName() bool {
+	for _, o := range r.order {
+		if !o.finished.Load() && o.isArrived("name") && !o.isOpen("name") {
+			return true
+		}
+	}
+	return false
+}
+
+// blockedByDesign: somebody is held mid-resolution and the lock refuses new readers (a writer is pending
+// behind the held reader): waiting for anybody else to return is pointless until the held one is let go.
+func (r *c12Run) blockedByDesign() bool {
+	if !r.heldAtName() {
+		return false
+	}
+	mu := &r.sys.svc.executionConfigMu
+	for i := 0; i < 3; i++ {
+		if mu.TryRLock() {
+			mu.RUnlock()
+			return false
+		}
+		time.Sleep(200 * time.Microsecond)
+	}
+	return true
+}
+
+// waitReturn waits (bounded; only steers the interleaving) for an operation the schedule lets return here.
+func (r *c12Run) waitReturn(op *c11Op, d time.Duration) {
+	deadline := time.Now().Add(d)
+	for time.Now().Before(deadline) {
+		select {
+		case <-op.done:
+			return
+		case <-time.After(time.Millisecond):
+		}
+		if r.blockedByDesign() {
+			return
+		}
+	}
+}
+
 var c12Stuck atomic.Int32
 
 func c12RunScenario(t *testing.T, tr *verifsupport.Trace, sc c12Scenario, watchdog time.Duration) {
@@ -164,7 +222,13 @@ func c12RunScenario(t *testing.T, tr *verifsupport.Trace, sc c12Scenario, watchd
 	}
 	sys := c11NewSystem(t, env, initOut, reset.Init, false)
 	defer sys.close()
-	r := &c12Run{t: t, tr: tr, sc: sc.Sc, env: env, sys: sys, ctx: context.Background(), ops: map[int]*c11Op{}}
+	r := &c12Run{t: t, tr: tr, sc: sc.Sc, env: env, sys: sys, ctx: context.Background(), ops: map[int]*c11Op{},
+		resolves: map[int]bool{}, retSeen: map[int]bool{}}
+	for _, st := range sc.Steps[1:] {
+		if st.Ev == "Step" && (st.Name == "LookupResolve" || st.Name == "AuctionResolve") {
+			r.resolves[st.Op] = true
+		}
+	}
 	r.emit(verifsupport.Ev{"ev": "Reset", "init": reset.Init})
 
 	aborted := false
@@ -196,6 +260,13 @@ func c12RunScenario(t *testing.T, tr *verifsupport.Trace, sc c12Scenario, watchd
 					continue
 				}
 			}
+			// an operation the schedule has already let return, and which is only a little late, is waited
+			// for, so that the calls that the schedule starts after it really start after it
+			for _, prev := range r.order {
+				if r.retSeen[prev.id] && !prev.finished.Load() {
+					r.waitReturn(prev, c12ReturnWait)
+				}
+			}
 			op := c11NewOp(st.Op, st.Kind, st.V)
 			r.ops[st.Op] = op
 			r.order = append(r.order, op)
@@ -210,10 +281,8 @@ func c12RunScenario(t *testing.T, tr *verifsupport.Trace, sc c12Scenario, watchd
 			op.bid = st.Out
 			op.open("bid")
 		case "Return":
-			select {
-			case <-r.ops[st.Op].done:
-			case <-time.After(c12ReturnWait):
-			}
+			r.retSeen[st.Op] = true
+			r.waitReturn(r.ops[st.Op], c12ReturnWait)
 		case "Step":
 			op := r.ops[st.Op]
 			switch st.Name {
@@ -228,6 +297,12 @@ func c12RunScenario(t *testing.T, tr *verifsupport.Trace, sc c12Scenario, watchd
 					op.waitArrived("name", c12ArriveWait)
 				}
 			case "LookupRUnlock", "AuctionRUnlock":
+				// the settings are worked out under the lock, or (schedules of the "snapshot" design) later:
+				// then the operation stays held mid-resolution until its Resolve step
+				if !r.resolves[st.Op] {
+					op.open("name")
+				}
+			case "LookupResolve", "AuctionResolve":
 				op.open("name")
 			}
 		default:
